@@ -33,6 +33,25 @@ FullOK(t) == \A k \in 1..Len(t.src) : ~t.sparse[k] => ((DOMAIN t.src[k]) \ Rng(t
 \* joint decisions: consecutive exact snapshots of all working glyph sets stay compatible
 StepsOK(t) == \A e \in 1..(Len(t.events) - 1) :
                  (SameDomains(t.events[e].gss) /\ CompatibleMasters(t.events[e].gss)) => CompatibleMasters(t.events[e + 1].gss)
+(***************************************************************************)
+(* Known finding F-C09-1: a closed contour whose closing segment is a      *)
+(* ZERO-LENGTH line (last on-curve point = start point) in some masters    *)
+(* only.  fontTools' PointToSegmentPen then emits the closing lineTo        *)
+(* explicitly in those masters (to keep the duplicate point) and leaves it *)
+(* implied in the others, so the segment structure differs.                *)
+(***************************************************************************)
+ClosingZero(c) ==
+  LET sg == Segments(c) IN
+  sg.ok /\ Len(sg.segs) >= 2 /\ sg.segs[Len(sg.segs)][1] = "line"
+        /\ LET prev == sg.segs[Len(sg.segs) - 1][2] IN prev[Len(prev)] = sg.start
+TieFlags(gs, n) == LET r == Resolve(gs, n) IN [k \in 1..Len(r) |-> ClosingZero(r[k]) \/ ClosingZero(RevContour(r[k]))]
+\* any zero-length on-curve step (consecutive equal on-curve points) in some masters only
+ZeroSteps(c) == {k \in 1..Len(c) : c[k][3] # "off" /\ c[(k % Len(c)) + 1][3] # "off" /\ c[k][1] = c[(k % Len(c)) + 1][1] /\ c[k][2] = c[(k % Len(c)) + 1][2]}
+StepFlags(gs, n) == LET r == Resolve(gs, n) IN [k \in 1..Len(r) |-> ZeroSteps(r[k])]
+Known_C09_1(t) ==
+  \E n \in AllNames(FullSets(t)) : \E a, b \in 1..Len(FullSets(t)) :
+     n \in DOMAIN FullSets(t)[a] /\ n \in DOMAIN FullSets(t)[b] /\ TieFlags(FullSets(t)[a], n) # TieFlags(FullSets(t)[b], n)
+
 Clauses(t) ==
   << <<"compiles", ~Has(t, "err")>>,
      <<"masters-stay-compatible", (~Has(t, "err") /\ SameDomains(FullSets(t)) /\ CompatibleMasters(FullSets(t))) => OutCompatible(t)>>,
@@ -42,7 +61,8 @@ Clauses(t) ==
 Init == i = 1
 Next == /\ i <= Len(Traces)
         /\ LET t == Traces[i]  cl == Clauses(t)  bad == {k \in 1..Len(cl) : ~cl[k][2]}
-           IN PrintT(<<"VERDICT", t.tid, IF bad = {} THEN "none" ELSE cl[Min(bad)][1], "none">>)
+           IN PrintT(<<"VERDICT", t.tid, IF bad = {} THEN "none" ELSE cl[Min(bad)][1], "none",
+                       IF bad # {} /\ ~Has(t, "err") /\ Known_C09_1(t) THEN "F-C09-1" ELSE "none">>)
         /\ i' = i + 1
 Spec == Init /\ [][Next]_i
 =============================================================================
